@@ -71,6 +71,7 @@ type PtrVal struct {
 	Nil  *Term // Bool: pointer is nil
 	Glob string
 	ArrT *types.Array // pointer to a local array held as a region
+	InArr bool        // element of a byte array held as a Bytes value inside a cell (Idx is the element index)
 }
 
 type StructVal struct {
